@@ -93,6 +93,12 @@ def run(pid):
                     rep.violation("pinned witness of %s fails with an unlisted symptom %s" % (w["id"], byw[0]), {"engine": "conc", "scenario": sc, "rules": byw[0]})
                 else:
                     vlib.log("known finding %s no longer reproduces on its witness" % w["id"])
+    # 4. (C13) the freelist as a concurrent component: FreeList.tla (Put / Flush in two segments / ToGC in three / the
+    #    collector reading and removing .gc) model-checked for ExactlyOnce; every transition of the model WITH the lock and
+    #    a sample of the transitions of the model WITHOUT it (interleavings the lock forbids: on the unchanged code those
+    #    steps block) replayed on a real freelist.FreeList; FreeListTrace.tla judges what was presented to the collector
+    if pid == "C13":
+        total += freelist_part(rep, rng, thorough)
     ws = witnesses(pid)
     if ws:
         for w in ws:
@@ -112,7 +118,77 @@ def run(pid):
     return rep.finish()
 
 
+FL_SHAPES = [([[1, 2], [3]], 2, 2), ([[1], [2]], 2, 1), ([[1, 2, 3]], 1, 2)]
+
+
+def fl_judge(rep, scens, label):
+    d = vlib.subdir("flist." + label)
+    sf = os.path.join(d, "scen.ndjson")
+    vlib.write_ndjson(sf, scens)
+    files, summ = vlib.run_harness("flist", sf, os.path.join(d, "trace"))
+    bad, n, _ = vlib.validate_traces("FreeListTrace", "FreeListTrace.cfg", files)
+    rep.cov["evaluations"] += n
+    for c in summ.get("crashed", []):
+        rep.violation("the harness process dies or hangs while executing this freelist schedule alone", {"engine": "flist", "scenario": scens[c["t"]], "rules": ["process-crash-or-hang"]})
+    seen = set()
+    for b in bad:
+        if b["t"] in seen:
+            continue
+        seen.add(b["t"])
+        rules = sorted({x["rule"] for x in bad if x["t"] == b["t"]})
+        rep.violation("freelist component: rules %s" % ",".join(rules), {"engine": "flist", "scenario": scens[b["t"]], "rules": rules})
+    for f in files:
+        os.unlink(f)
+    return summ
+
+
+def freelist_part(rep, rng, thorough):
+    scens = []
+    nlocked = 0
+    for progs, nf, ng in (FL_SHAPES if thorough else FL_SHAPES[:2]):
+        defs = {"Progs": "<< " + ", ".join("<<" + ", ".join(str(e) for e in p) + ">>" for p in progs) + " >>"}
+        consts = {"NFlush": nf, "NGC": ng, "Locking": "TRUE"}
+        r = vlib.tlc_must("MCFreeList", "MCFreeList_mc.cfg", consts=consts, defs=defs, timeout=1500)
+        if r.violated:
+            raise vlib.Infra("FreeList.tla violates ExactlyOnce with the lock - replay the counter-example first:\n" + r.out[-2500:])
+        rep.add_model(r)
+        g = vlib.tlc_must("MCFreeList", "MCFreeList_edges.cfg", consts=consts, defs=defs, timeout=1500)
+        a = vlib.drop_prefixes(g.printed("SCN"), key=lambda s: s["schedule"])
+        g2 = vlib.tlc_must("MCFreeList", "MCFreeList_edges.cfg", consts=dict(consts, Locking="FALSE"), defs=defs, timeout=1500)
+        b = vlib.drop_prefixes(g2.printed("SCN"), key=lambda s: s["schedule"])
+        if not thorough:
+            b = rng.sample(b, min(len(b), 400))
+        nlocked += len(a)
+        scens += [{"progs": progs, "nflush": nf, "ngc": ng, "schedule": s["schedule"]} for s in a + b]
+    summ = fl_judge(rep, scens, "c13")
+    rep.cov["freelist_component_schedules"] = len(scens)
+    rep.cov["freelist_component_schedules_of_the_model_with_lock"] = nlocked
+    rep.cov["freelist_component_steps_blocked_by_the_lock"] = summ.get("steps_blocked", 0)
+    vlib.log("C13 freelist component: %d schedules (%d from the model with the lock), %d steps blocked" % (len(scens), nlocked, summ.get("steps_blocked", 0)))
+    return len(scens)
+
+
 def replay(pid, path):
+    with open(path) as f:
+        eng = json.load(f).get("engine")
+    if eng == "flist":
+        rep = vlib.Report(pid, replay=True)
+        vlib.build_harness()
+        fl_judge(rep, [json.load(open(path))["scenario"]], "replay")
+        return rep.finish()
+    if eng == "conc":
+        import conceng
+        rep = vlib.Report(pid, replay=True)
+        vlib.build_harness()
+        sc = json.load(open(path))["scenario"]
+        byc = conceng.judge(rep, [sc], "replay", monitors=(("FsckTrace", {"VRULES": "C13"}),))
+        for t, rules in byc.items():
+            rep.violation("rules %s in the files after a concurrent history" % ",".join(rules), {"engine": "conc", "scenario": sc, "rules": rules})
+        return rep.finish()
+    return replay_seq(pid, path)
+
+
+def replay_seq(pid, path):
     rep = vlib.Report(pid, replay=True)
     with open(path) as f:
         obj = json.load(f)
